@@ -342,24 +342,24 @@ def match_wildcard(name: Optional[str], wildcard: str) -> bool:
         return name == wildcard[3:]
 
 
-def escape_json_string(s: str, escaped: bool = False) -> str:
-    if escaped:
-        # the escapes of the characters that are escaped again below
-        s = s.replace('\\"', '"').replace('\\/', '/')
-    else:
-        s = s.replace('\\', '\\\\')
+_JSON_ESCAPES = {
+    '\\': '\\\\', '"': '\\"', '\b': '\\b', '\f': '\\f',
+    '\n': '\\n', '\r': '\\r', '\t': '\\t', '/': '\\/',
+}
 
-    s = s.replace('\"', '\\"').\
-        replace('\b', r'\b').\
-        replace('\r', r'\r').\
-        replace('\n', r'\n').\
-        replace('\t', r'\t').\
-        replace('\f', r'\f').\
-        replace('/', r'\/')
-    return ''.join(
-        rf'\u{ord(x):04X}' if 1 <= ord(x) <= 31 or 127 <= ord(x) <= 159 else x
-        for x in s
-    )
+
+def escape_json_string(s: str, escaped: bool = False) -> str:
+
+    def escape(match: re.Match[str]) -> str:
+        chunk = match.group()
+        if len(chunk) == 2:
+            return chunk  # an escape sequence of an escaped string is kept
+        return _JSON_ESCAPES.get(chunk) or rf'\u{ord(chunk):04X}'
+
+    if escaped:
+        # the string is scanned from left to right: a backslash always starts an escape sequence
+        return re.sub(r'\\.|["/\x01-\x1f\x7f-\x9f]', escape, s, flags=re.DOTALL)
+    return re.sub(r'[\\"/\x01-\x1f\x7f-\x9f]', escape, s)
 
 
 def unescape_json_string(s: str) -> str:
